@@ -409,6 +409,9 @@ func (w *World) Settle(maxRounds int) bool {
 		for _, r := range w.Reconcilables() {
 			p := w.RunPass(r[0].(string), r[1].(Key))
 			writes += p.Writes
+			if p.Err != nil {
+				writes++ // a failed pass is retried: the round is not quiet
+			}
 		}
 		if len(w.EnvGC()) > 0 {
 			writes++
